@@ -294,6 +294,31 @@ func H_C04_typing() {
 			return v.String() == "r=false"
 		}},
 		{`!a`, reflect.Bool, func(v reflect.Value) bool { return v.Bool() == (a == 0) }},
+		// integer literals beyond int64 (decimal and hex) are numbers like any other
+		{`9223372036854775808`, reflect.Float64, func(v reflect.Value) bool { return c04EqF(v.Float(), 9223372036854775808.0) }},
+		{`18446744073709551615`, reflect.Float64, func(v reflect.Value) bool { return c04EqF(v.Float(), 18446744073709551615.0) }},
+		{`0xFFFFFFFFFFFFFFFF`, reflect.Float64, func(v reflect.Value) bool { return c04EqF(v.Float(), 18446744073709551615.0) }},
+		{`9223372036854775807`, reflect.Float64, func(v reflect.Value) bool { return c04EqF(v.Float(), 9223372036854775807.0) }},
+		{`9223372036854775808 > a`, reflect.Bool, func(v reflect.Value) bool { return v.Bool() }},
+		{`18446744073709551615 / 2 > 9000000000000000000`, reflect.Bool, func(v reflect.Value) bool { return v.Bool() }},
+		{`9223372036854775808 ? 1 : 0`, reflect.Float64, func(v reflect.Value) bool { return c04EqF(v.Float(), 1) }},
+		// operators written without spaces after identifiers and fields
+		{`a<b`, reflect.Bool, func(v reflect.Value) bool { return v.Bool() == (a < b) }},
+		{`a<=b`, reflect.Bool, func(v reflect.Value) bool { return v.Bool() == (a <= b) }},
+		{`a>b`, reflect.Bool, func(v reflect.Value) bool { return v.Bool() == (a > b) }},
+		{`a>=b`, reflect.Bool, func(v reflect.Value) bool { return v.Bool() == (a >= b) }},
+		{`a==b`, reflect.Bool, func(v reflect.Value) bool { return v.Bool() == (a == b) }},
+		{`a!=b`, reflect.Bool, func(v reflect.Value) bool { return v.Bool() == (a != b) }},
+		{`a+b`, reflect.Int64, func(v reflect.Value) bool { return v.Int() == a+b }},
+		{`a-b`, reflect.Int64, func(v reflect.Value) bool { return v.Int() == a-b }},
+		{`a*b`, reflect.Int64, func(v reflect.Value) bool { return v.Int() == a*b }},
+		{`a%i8`, reflect.Int64, func(v reflect.Value) bool { return v.Int() == a%3 }},
+		{`a/i8`, reflect.Int64, func(v reflect.Value) bool { return v.Int() == a/3 }},
+		{`p&&a<b`, reflect.Bool, func(v reflect.Value) bool { return v.Bool() == (a < b) }},
+		{`p||a<b`, reflect.Bool, func(v reflect.Value) bool { return v.Bool() }},
+		{`.A<b`, reflect.Bool, func(v reflect.Value) bool { return v.Bool() == (7 < b) }},
+		{`.A<=b&&b>=.A`, reflect.Bool, func(v reflect.Value) bool { return v.Bool() == (7 <= b) }},
+		{`p?a:b`, reflect.Int64, func(v reflect.Value) bool { return v.Int() == a }},
 	}
 	c := ndChoice("case", len(cases))
 	var got reflect.Value
@@ -310,7 +335,7 @@ func H_C04_typing() {
 	vars.Set("i8", int8(3))
 	vars.Set("u8", uint8(5))
 	vars.SetFunc("cap", c04Capture(&got))
-	_, err := hxExec(set, "/m.jet", vars, nil)
+	_, err := hxExec(set, "/m.jet", vars, struct{ A int64 }{7})
 	vfReach("evaluated")
 	vfAssert(err == nil, "evaluates")
 	if err != nil {
